@@ -7,9 +7,10 @@ C15 — rendering is deterministic and renders do not interfere.
 Determinism of a functional model is vacuous.  What is proved here is ORDER INDEPENDENCE of the
 loops over Go maps (modelled in WR/C15/Model.lean as folds over an arbitrary permutation of the
 entries; WR/C15/Sites.lean maps every `range`-over-map site of the repository to one of them),
-negation witnesses for the sites that are NOT order independent (KF15-2..4 in the current code,
-each confirmed on the real renderer; KF15-1 = F15-1 in resolveLinks, fixed in /repo by 37ac465
-while this check was being built: the model follows the fix), and that the proposed repair (iterate in a
+negation witnesses for the sites that are NOT order independent (KF15-2, KF15-3 in the current
+code, each confirmed on the real renderer; KF15-1 = F15-1 in resolveLinks and KF15-4 in
+GetLangQuotes were fixed in /repo by 37ac465 and 6df2af4: the models follow the fixes and the
+witnesses are kept as "before the fix" theorems), and that the proposed repair (iterate in a
 canonical order) is order independent for every loop body.  Plus a regenerated fact: the
 package-level variables written outside init() equal a reviewed allow-list.
 
@@ -145,7 +146,7 @@ theorem links_before_fix_perm_invariant {π ρ : Type} (o₁ o₂ : List (List (
 /-- For EVERY loop body and initial state: folding over the entries sorted by a total order that
 separates distinct entries gives the same result for any two iteration orders.  Instances:
 anchors by name (F15-1, now in the code), broken out-of-flow boxes by document order (KF15-2), grid items by
-document order (KF15-3), language keys by length then name (KF15-4). -/
+document order (KF15-3), language keys by length then name (KF15-4, now in the code). -/
 theorem sorted_range_perm_invariant {σ ε : Type} (le : ε → ε → Bool)
     (tot : ∀ a b, le a b = true ∨ le b a = true)
     (trans : ∀ a b c, le a b = true → le b c = true → le a c = true)
@@ -210,28 +211,49 @@ theorem grid_span_not_perm_invariant :
   ⟨[⟨0, 0, 1⟩, ⟨1, 0, 2⟩, ⟨2, 2, 1⟩, ⟨3, 2, 1⟩], [⟨0, 0, 1⟩, ⟨2, 2, 1⟩, ⟨3, 2, 1⟩, ⟨1, 0, 2⟩],
     (Perm.cons _ ((Perm.swap _ _ _).trans (Perm.cons _ (Perm.swap _ _ _)))), by decide⟩
 
-/-! ### text/quotes.go:141 — first matching prefix in map order (KF15-4)
+/-! ### text/quotes.go:136 — GetLangQuotes
 
-Full statement (FALSE): l₁.Perm l₂ → langQuotes none d lang l₁ = langQuotes none d lang l₂ -/
+`lang_quotes_perm_invariant` was FALSE until fix 6df2af4 (KF15-4: the first key in MAP ORDER that
+is a prefix of the language won, independently for every quote mark).  The model follows the
+code: `langQuotes` is the current function (keys sorted once by decreasing length, then name),
+`langQuotesBeforeFix` the old one. -/
 
-/-- negation witness: `lang="fr_CHx"` is no key; "fr" and "fr_CH" are both prefixes. -/
-theorem lang_quotes_not_perm_invariant :
+/-- P1 for the CURRENT code: the quotes chosen for a language do not depend on the iteration order
+of the langQuotes map (instance of `sorted_range_perm_invariant`). -/
+theorem lang_quotes_perm_invariant {ν : Type} (exact : Option ν) (dflt : ν) (lang : String)
+    (l₁ l₂ : List (String × ν)) (h : l₁.Perm l₂) (nd : (l₁.map (·.1)).Nodup) :
+    langQuotes exact dflt lang l₁ = langQuotes exact dflt lang l₂ := by
+  unfold langQuotes
+  rw [sorted_range_perm_invariant byLenName byLenName_tot byLenName_trans (langStep lang) none l₁ l₂ h
+    (byLenName_anti nd)]
+
+example : (([("fr", 1), ("fr_CH", 2)] : List (String × Nat)).map (·.1)).Nodup := by decide
+
+/-- the longest matching key wins in the current code (the replayed document: "fr_CH", not "fr"). -/
+theorem lang_quotes_longest_example :
+    langQuotes none 0 "fr_CHx" [("fr", 1), ("fr_CH", 2)] = 2 ∧
+    langQuotes none 0 "fr_CHx" [("fr_CH", 2), ("fr", 1)] = 2 := by decide
+
+/-- negation witness for the code BEFORE the fix: `lang="fr_CHx"` is no key; "fr" and "fr_CH" are
+both prefixes (was replayed on the real code with `<p lang="fr_CHx"><q>a <q>b</q></q></p>`; that
+document stays in the corpus as a regression test). -/
+theorem lang_quotes_before_fix_not_perm_invariant :
     ∃ l₁ l₂ : List (String × Nat), l₁.Perm l₂ ∧
-      langQuotes none 0 "fr_CHx" l₁ ≠ langQuotes none 0 "fr_CHx" l₂ :=
+      langQuotesBeforeFix none 0 "fr_CHx" l₁ ≠ langQuotesBeforeFix none 0 "fr_CHx" l₂ :=
   ⟨[("fr", 1), ("fr_CH", 2)], [("fr_CH", 2), ("fr", 1)], Perm.swap _ _ _, by decide⟩
 
-/-- what does hold: when all keys that are prefixes of `lang` carry the same quotes (in particular
-when at most one key is a prefix) the result is order independent. -/
-theorem lang_quotes_perm_invariant_partial {ν : Type} (exact : Option ν) (dflt : ν) (lang : String)
+/-- what held before the fix: when all keys that are prefixes of `lang` carry the same quotes (in
+particular when at most one key is a prefix) the result was order independent. -/
+theorem lang_quotes_before_fix_perm_invariant_partial {ν : Type} (exact : Option ν) (dflt : ν) (lang : String)
     (l₁ l₂ : List (String × ν)) (h : l₁.Perm l₂)
     (uniq : ∀ a ∈ l₁, ∀ b ∈ l₁, (a.1 != "" && isPrefix a.1 lang) = true →
       (b.1 != "" && isPrefix b.1 lang) = true → a.2 = b.2) :
-    langQuotes exact dflt lang l₁ = langQuotes exact dflt lang l₂ := by
-  unfold langQuotes
+    langQuotesBeforeFix exact dflt lang l₁ = langQuotesBeforeFix exact dflt lang l₂ := by
+  unfold langQuotesBeforeFix
   cases exact with
   | some v => rfl
   | none =>
-    simp only
+    simp only [rangeFold, langStep_foldl]
     cases h1 : l₁.find? (fun e => e.1 != "" && isPrefix e.1 lang) with
     | none =>
       cases h2 : l₂.find? (fun e => e.1 != "" && isPrefix e.1 lang) with
@@ -251,6 +273,7 @@ theorem lang_quotes_perm_invariant_partial {ν : Type} (exact : Option ν) (dflt
       | some e₂ =>
         have hm2 := List.mem_of_find?_eq_some h2
         have hp2 := List.find?_some h2
+        simp only [Option.map_some, Option.getD_some]
         exact uniq e₁ hm1 e₂ (h.mem_iff.mpr hm2) hp1 hp2
 
 example : ∀ a ∈ [("fr", 1), ("de", 2)], ∀ b ∈ [("fr", 1), ("de", 2)],
